@@ -157,11 +157,14 @@ def style_problems(out, cfg):
         else:
             bad.append(("css-property-not-allowed", decl))
     for m in re.finditer(r"url\s*\(([^)]*)\)?", out, re.I):
-        if m.group(0)[:3] != "url":
+        # the three recorded forms all have an argument the gauntlet admits (digits, commas, white space, closed by ')');
+        # a url() kept with any other argument is not one of them
+        admitted = re.fullmatch(r"[\d,\s]*", m.group(1)) is not None and m.group(0).endswith(")")
+        if admitted and m.group(0)[:3] != "url":
             bad.append(("css-url-uppercase", m.group(0)))
-        elif not m.group(1).strip():
+        elif admitted and not m.group(1).strip():
             bad.append(("css-url-empty", m.group(0)))
-        elif re.search(r"\s", m.group(1).strip()):
+        elif admitted and re.search(r"\s", m.group(1).strip()):
             bad.append(("css-url-with-spaces", m.group(0)))
         else:
             bad.append(("css-url-kept", m.group(0)))
@@ -483,6 +486,9 @@ def classify_css(style, cfg):
     return cls, small
 
 
+IGNORED_BY_SANITIZER = re.compile("[`\x00-\x20\x7f-\xa0\\s\ufffd]+")
+
+
 def classify_uri(key, v, cfg):
     c = cfg or defaults()
 
@@ -507,7 +513,16 @@ def classify_uri(key, v, cfg):
     if stem == "data-content-type-kept":
         mime = browser_data_mime(small)
         raw = small.split(":", 1)[1].split(",", 1)[0]
-        if "`" in raw:
+        # recorded cause of all three sub-classes: characters that the sanitizer deletes before it looks at the content type
+        # but that a browser keeps.  It explains the failure only if WITHOUT those characters the browser reads an allowed
+        # content type too (the sanitizer's verdict is right for the cleaned value); otherwise something else is wrong.
+        # (checked on the ORIGINAL value as well: shrinking must not slide from another cause into the recorded one)
+        def explained(val):
+            cleaned = IGNORED_BY_SANITIZER.sub("", val)
+            return cleaned != val and uri_problem(key, cleaned, c) is None
+        if not (explained(small) and explained(v)):
+            why = "other"
+        elif "`" in raw:
             why = "backtick-ignored"
         elif mime == "text/plain":
             why = "browser-falls-back-to-text-plain"
